@@ -177,6 +177,21 @@ let run_wal infile outfile oraclefile =
         (oracle_of si st written (List.length written) r)
         (match r2 with Some x -> oracle_of si st written 0 x | None -> "na")
         (List.length written)
+    | ["K"; cid; did; sihex; sthex; nops] ->
+      (* process-kill image taken when the nops-th operation returned: read it like any
+         directory; the result must contain every completed save (completed_ok, theorem
+         C16_completed_save_durable) and the image must contain the model's durable state *)
+      let si = n_of_hexnum sihex and st = n_of_hexnum sthex in
+      let files = get_dir did in
+      let (line, r, _) = observe si st files in
+      Printf.fprintf oc "R %s %s\n" cid line;
+      let d = Hashtbl.find dirs did in
+      let w = Hashtbl.find wals d.dwid in
+      let ops = take (int_of_string nops) (List.rev w.ops) in
+      let (_, dur) = w_run_d w.meta ops in
+      Printf.fprintf oo "O %s kind=K durable=%s prefix=%s nops=%s\n" cid
+        (if completed_ok ops r then "ok" else "BAD")
+        (if kill_prefix_ok dur files then "ok" else "BAD") nops
     | ["M"; cid; did; sihex; sthex; fidx; off; v] ->
       let si = n_of_hexnum sihex and st = n_of_hexnum sthex in
       let files = get_dir did in
